@@ -82,7 +82,9 @@ pub fn failure_sig(prefix: &str, clause: &str, obs: &Obs, r: &RefOut) -> String 
         return format!("{}:junk_above_captured_local", prefix);
     }
     // values left on the VM stack by statement-level value cards and array literals exhaust it
-    if obs.outcome == Err("Stackoverflow".to_string()) && r.stats.expr_stmts + r.stats.array_junk > 40 {
+    // (possibly wrapped in TaskFailure(..) when it happens below a re-entering native)
+    let overflow = matches!(&obs.outcome, Err(k) if k.trim_end_matches(')').ends_with("Stackoverflow"));
+    if overflow && r.stats.expr_stmts + r.stats.array_junk > 40 {
         return format!("{}:leftover_values_exhaust_stack", prefix);
     }
     let tags: Vec<String> = r.tags.iter().cloned().collect();
@@ -121,8 +123,24 @@ impl Property for C01 {
     fn describe(&self, bytes: &[u8]) -> J {
         program_json(&decode(bytes))
     }
+    fn structured(&self, bytes: &[u8]) -> Option<J> {
+        serde_json::to_value(decode(bytes)).ok()
+    }
+    fn run_structured(&self, case: &J, _tier: Tier) -> Option<CaseOut> {
+        let prog: Program = serde_json::from_value(case.clone()).ok()?;
+        Some(run_program(&prog))
+    }
     fn run(&self, bytes: &[u8], _tier: Tier) -> CaseOut {
-        let prog = decode(bytes);
+        run_program(&decode(bytes))
+    }
+    fn label_floors(&self) -> Vec<(&'static str, f64)> {
+        vec![("call_offset>0", 0.05), ("loop_with_local", 0.10), ("return_in_loop", 0.005), ("dyn_call", 0.03), ("table_ops", 0.05)]
+    }
+}
+
+fn run_program(prog: &Program) -> CaseOut {
+    {
+        let prog = prog.clone();
         let fp = fnv64(format!("{:?}", prog).as_bytes());
         let r = run_reference(&prog, 60_000);
         let labels = labels_of(&r);
@@ -156,9 +174,6 @@ impl Property for C01 {
             Some((clause, detail)) => Verdict::Fail(Failure::new(&clause, &failure_sig("c01", &clause, &obs, &r), detail)),
         };
         CaseOut { verdict, nontrivial, labels, fingerprint: fp, execs: 1 }
-    }
-    fn label_floors(&self) -> Vec<(&'static str, f64)> {
-        vec![("call_offset>0", 0.05), ("loop_with_local", 0.10), ("return_in_loop", 0.005), ("dyn_call", 0.03), ("table_ops", 0.05)]
     }
 }
 
